@@ -53,7 +53,22 @@ pub fn run(seed: u64, count: usize, max_c: usize, max_p: usize, rooms_mode: usiz
             inst = tight_inst(&mut r);
         }
         let hidden: Vec<Vec<String>> =
-            (0..inst.courses.len()).map(|c| (0..(if r.chance(1, 4) { r.range(1, 2) } else { 0 })).map(|j| format!("H{}_{} Gast", c, j)).collect()).collect();
+            (0..inst.courses.len())
+                .map(|c| {
+                    // hidden extra names: none mostly; else 1-4 names, not sorted, namesakes (the same string twice) allowed by the format
+                    let n = if r.chance(1, 4) { r.range(1, 4) } else { 0 };
+                    let mut v: Vec<String> = Vec::new();
+                    for j in 0..n {
+                        if j > 0 && r.chance(1, 3) {
+                            let k = r.below(v.len());
+                            v.push(v[k].clone());
+                        } else {
+                            v.push(format!("H{}_{} Gast", c, (n - j) * 7 % 5));
+                        }
+                    }
+                    v
+                })
+                .collect();
         let courses: Vec<cdecao::Course> = inst
             .courses
             .iter()
